@@ -32,7 +32,7 @@ fn sig_of(m: &M) -> String {
 
 fn short(m: &M) -> String {
     let s = format!("{:?}", m);
-    if s.len() > 240 { format!("{}...", &s[..240]) } else { s }
+    if s.chars().count() > 240 { format!("{}...", s.chars().take(240).collect::<String>()) } else { s }
 }
 
 /// message -> payload -> message, against the specification body.  Returns an error (sig, detail).
